@@ -19,7 +19,7 @@ LEVEL = "exploration"
 RULE = ("sum-product IR programs over 1-5 distinct leaf tensors and 4 variables of sizes 1-3: products, semiring sums, reductions over any "
         "subset (fully reduced roots are the main stratum, partially reduced ones included), leaves passed through renamings, slices, Cat "
         "and injective index substitutions, a leaf used twice; semirings (add,mul) and (logaddexp,add); built under reflect and given to "
-        "forward_backward directly and after apply_optimizer. Forward value vs reference; each leaf's adjoint vs the product-rule derivative "
+        "forward_backward directly and after apply_optimizer; a targeted family multiplies one featured leaf by a cofactor over all its names.  Forward value vs reference; each leaf's adjoint vs the product-rule derivative "
         "at every point. Non-trivial: >=2 leaves, adjoint compared at >=2 points; distinct by (semiring, IR hash, route)")
 ASSUMPTIONS = ["fv/refsem.py values; derivative by the product rule in this module", "adjoints may omit inputs they do not depend on; comparison is pointwise over the leaf's and root's inputs"]
 MIN_NONTRIVIAL = {"quick": 250, "thorough": 3000}
@@ -162,6 +162,31 @@ class AdjGen:
             vs = [str(v) for v in self.rng.choice(present, size=k, replace=False)]
             return ("red", self.sum_op, e, tuple(sorted((n, inp[n]) for n in vs)))
         return ("bin", self.sum_op, (), self.expr(depth - 1), self.expr(depth - 1))
+
+    def targeted(self):
+        """one leaf under a feature (renaming, slice, index, Cat, ...) multiplied by a cofactor that mentions every resulting name, so
+        that the adjoint handed down to the feature is a tensor over all of them; everything reduced"""
+        self.leaves, self.features = [], set()
+        for _ in range(20):
+            self.leaves, self.features = [], set()
+            u = self.leaf_use()
+            if u[0] != "ten":
+                break
+        try:
+            inp = inputs_of(u)
+        except (IllTyped, Unsupported):
+            return u
+        names = list(inp)
+        self.rng.shuffle(names)
+        sizes = {n: d[0] for n, d in inp.items()}
+        sizes.update({n: z for n, z in NAMES.items() if n not in sizes})
+        extra = [n for n in NAMES if n not in names and self.rng.random() < 0.25]
+        cof = self.new_leaf(names + extra, sizes)
+        e = ("bin", self.prod_op, (), u, cof) if self.rng.random() < 0.5 else ("bin", self.prod_op, (), cof, u)
+        if self.rng.random() < 0.3:
+            e = ("bin", self.prod_op, (), e, self.new_leaf())
+        inp = inputs_of(e)
+        return ("red", self.sum_op, e, tuple(sorted(inp.items())))
 
     def program(self, depth, fully_reduced):
         self.leaves, self.features = [], set()
@@ -469,7 +494,10 @@ def multiplicity_signature(P, arr, ratios, sr):
 
 def plan(tier, seed):
     n = 16 if tier == "quick" else 64
-    return [{"name": "adj-%d" % i, "n": 50 if tier == "quick" else 300, "timeout": 3000} for i in range(n)]
+    shards = [{"name": "adj-%d" % i, "n": 50 if tier == "quick" else 300, "timeout": 3000} for i in range(n)]
+    nt = 8 if tier == "quick" else 24
+    shards += [{"name": "targeted-%d" % i, "kind": "targeted", "n": 50 if tier == "quick" else 300, "timeout": 3000} for i in range(nt)]
+    return shards
 
 
 def tensor_leaves(f, acc=None, seen=None):
@@ -503,7 +531,13 @@ def run_shard(shard, res):
     for i in range(shard["n"]):
         sr = SEMIRINGS[i % 2]
         g = AdjGen(rng, sr)
-        P = g.program(int(rng.integers(1, 4)), fully_reduced=rng.random() < 0.85)
+        if shard.get("kind") == "targeted":
+            try:
+                P = g.targeted()
+            except (IllTyped, Unsupported):
+                continue
+        else:
+            P = g.program(int(rng.integers(1, 4)), fully_reduced=rng.random() < 0.85)
         if rng.random() < 0.8:
             try:
                 P = uniquify_binders(P)  # main stratum: no name is bound twice (the tape un-mangles bound names back to user names)
